@@ -100,6 +100,11 @@ def corpus():
              ops=[('copy', 0), ('setother', 0, 'http'), ('body', 1, 7), ('copy', 1), ('body', 2, None), ('body', 1, None)]),
         dict(data=d20, cl=6, buf=8, sched=[], maxb=None, via='ops',
              ops=[('setcl', 0, 9), ('body', 0, 3), ('setcl', 0, 4), ('body', 0, None), ('copy', 0), ('body', 1, None)]),
+        # F43 (repaired): a refused read is final — no later access reads on past Content-Length
+        dict(data=[97, 98, 99, 100, 71, 69, 84], cl=4, buf=2, sched=[], maxb=3, via='ops',
+             ops=[('body', 0, None), ('body', 0, None), ('copy', 0), ('body', 1, 1), ('setother', 0, 'ctype'), ('body', 0, 2)]),
+        dict(data=list(range(30)), cl=12, buf=4, sched=[1, 1], maxb=5, via='ops',
+             ops=[('body', 0, 3), ('setcl', 0, 2), ('body', 0, None), ('setinput', 0, [7, 7], []), ('body', 0, None)]),
         # record C04_copy_before_first_access_shares_stream_observation: the copy reads what follows the body
         dict(data=list(range(1, 7)), cl=2, buf=4, sched=[], maxb=None, via='ops',
              ops=[('copy', 0), ('body', 0, None), ('body', 1, None)]),
@@ -132,7 +137,7 @@ def gen(rng, n):
         case = dict(data=data, cl=cl, buf=buf, sched=sched, maxb=maxb, via=rng.choice(['func', 'request']))
         if rng.random() < 0.15:
             case['via'] = 'ops'
-            case['maxb'] = None
+            case['maxb'] = None if rng.random() < 0.6 else rng.choice([0, 1, 3, max(0, ln - 1), ln, ln + 3])
             case['ops'] = _gen_ops(rng, ln)
             yield case
             continue
@@ -232,7 +237,8 @@ def _run_ops(case):
         env['CONTENT_LENGTH'] = str(case['cl'])
     else:
         env.pop('CONTENT_LENGTH', None)
-    cfg = DefaultConfig(dict(max_memfile_size=case['buf'], max_body_size=None))
+    from ombott import HTTPError
+    cfg = DefaultConfig(dict(max_memfile_size=case['buf'], max_body_size=case['maxb']))
     reqs = [Request(env, config=cfg)]
     outs = []
     for op in case['ops']:
@@ -243,8 +249,11 @@ def _run_ops(case):
         rq = reqs[r]
         if kind == 'body':
             k = op[2]
-            b = rq.body.read() if k is None else rq.body.read(k)
-            outs.append(['bytes', list(b)])
+            try:
+                b = rq.body.read() if k is None else rq.body.read(k)
+                outs.append(['bytes', list(b)])
+            except HTTPError as e:
+                outs.append(['err'] if e.status_code == 413 else ['http_%d' % e.status_code])
         elif kind == 'copy':
             reqs.append(rq.copy())
             outs.append(['new', len(reqs) - 1])
@@ -411,8 +420,8 @@ def _enc_op(op):
 
 def encode(case):
     if case['via'] == 'ops':
-        return ([1, case['cl'], case['buf']] + enc_str(case['data']) + enc_list(case['sched'], lambda k: [k])
-                + enc_list(case['ops'], _enc_op))
+        return ([1, case['cl'], case['buf'], 0 if case['maxb'] is None else 1, case['maxb'] or 0]
+                + enc_str(case['data']) + enc_list(case['sched'], lambda k: [k]) + enc_list(case['ops'], _enc_op))
     return ([0, case['cl'], case['buf'], 0 if case['maxb'] is None else 1, case['maxb'] or 0]
             + enc_str(case['data']) + enc_list(case['sched'], lambda k: [k]))
 
@@ -423,7 +432,7 @@ def _dec_out(q):
         return ['bytes', q.str()]
     if t == 1:
         return ['new', q.int()]
-    return [{2: 'unit', 3: 'badreq'}.get(t, 'model_tag_%d' % t)]
+    return [{2: 'unit', 3: 'badreq', 4: 'err'}.get(t, 'model_tag_%d' % t)]
 
 
 def decode(out, case):
@@ -461,10 +470,21 @@ def _oracle_ops(case, obs):
         if r >= nreq:
             continue
         if kind == 'body':
+            if out[0] == 'err':
+                # refused (413): legitimate only under a limit the body exceeds; afterwards the request stays refused
+                if case['maxb'] is None:
+                    return 'op %d: body refused although no max_body_size is configured' % i
+                content[r] = ('refused', b'')
+                first_access = False
+                continue
+            if r in content and content[r][0] == 'refused':
+                return 'op %d: request %d was refused earlier and now presents a body' % (i, r)
             got = bytes(out[1]) if out[0] == 'bytes' else None
             if got is None:
                 return 'op %d: request.body.read gave %s' % (i, out)
             k = op[2]
+            if first_access and not disturbed and case['maxb'] is not None and len(data[:max(cl[r], 0)]) > case['maxb']:
+                return 'op %d: a body of %d bytes accepted although max_body_size=%d' % (i, len(data[:max(cl[r], 0)]), case['maxb'])
             if first_access and not disturbed:
                 want = data[:max(cl[r], 0)]
                 want = want if k is None else want[:k]
@@ -505,8 +525,9 @@ def _oracle_ops(case, obs):
         for n, p in st['reqs']:
             if p + n > c0:
                 return 'read(%d) at stream position %d reaches beyond Content-Length %d' % (n, p, c0)
-        if st['pos'] != min(c0, len(data)):
-            return 'server stream left at %d, expected %d' % (st['pos'], min(c0, len(data)))
+        refused = obs['outs'] and obs['outs'][0][0] == 'err'
+        if (st['pos'] > min(c0, len(data))) if refused else (st['pos'] != min(c0, len(data))):
+            return 'server stream left at %d, expected %s%d' % (st['pos'], 'at most ' if refused else '', min(c0, len(data)))
     return None
 
 
@@ -621,10 +642,10 @@ MANIFEST = dict(
           'proves the translation and the hand-written model agree), so an edit of the loop breaks a proof obligation directly. '
           'The Request-level glue (cached body rewound on every access, wsgi.input replaced by the buffered copy, '
           'Request.copy, Request.__setitem__) is a second model (coq/model/ReqBody.v: op sequences over the family of '
-          'request objects descending from one request by copy()): C04_first_access_exact (after any copies and header '
+          'request objects descending from one request by copy(), under any max_body_size): C04_first_access_exact (after any copies and header '
           'rewrites the first access on any object returns exactly the first Content-Length bytes and never reads '
           'beyond), C04_cached_body_stable (afterwards every access returns the same body whatever else happens to the '
-          'family, and reads no stream), C04_copy_presents_same_body; C04_only_new_input_drops_buffered_body is proved '
+          'family, and reads no stream), C04_copy_presents_same_body, C04_refusal_marks_request and C04_failed_read_is_final (a refused read is final: later accesses repeat the refusal without touching any stream - the repaired defect F43); C04_only_new_input_drops_buffered_body is proved '
           'about the invalidation table extracted from BaseRequest._on_env_changed on every run. '
           'The hand-written models (coq/model/Body.v, ReqBody.v) are tied to /repo on every run by a differential correspondence '
           '(extracted OCaml + vm_compute) on _body_read and Request.body, and an independent oracle searches for the '
